@@ -4,6 +4,7 @@ import (
 	"context"
 	"encoding/json"
 	"fmt"
+	"os"
 	"sort"
 	"time"
 
@@ -62,16 +63,16 @@ type reqObs struct {
 }
 
 type stepObs struct {
-	Reqs    []reqObs    `json:"reqs"`
-	Lookup  interface{} `json:"lookup"` // nil | "miss" | tagged dump
-	Summary interface{} `json:"summary,omitempty"`
-	ReValid interface{} `json:"re_valid,omitempty"`
-	Rates   interface{} `json:"rates,omitempty"`
-	State   interface{} `json:"state"`
-	Policy  interface{} `json:"policy,omitempty"`
-	Note    string      `json:"note,omitempty"`
-	AtMs    int64       `json:"at_ms"`
-	Deferred bool       `json:"deferred"`
+	Reqs     []reqObs    `json:"reqs"`
+	Lookup   interface{} `json:"lookup"` // nil | "miss" | tagged dump
+	Summary  interface{} `json:"summary,omitempty"`
+	ReValid  interface{} `json:"re_valid,omitempty"`
+	Rates    interface{} `json:"rates,omitempty"`
+	State    interface{} `json:"state"`
+	Policy   interface{} `json:"policy,omitempty"`
+	Note     string      `json:"note,omitempty"`
+	AtMs     int64       `json:"at_ms"`
+	Deferred bool        `json:"deferred"`
 }
 
 type sysObs struct {
@@ -308,7 +309,7 @@ func runSys(raw json.RawMessage) (out interface{}, err error) {
 	done := make(chan error, 1)
 	run.t0 = time.Now()
 	go func() {
-		m, err := manager.VerifNewManager(cfg, run.ads, true)
+		m, err := manager.VerifNewManager(cfg, run.ads, true, manager.Option{F: func(o *manager.Options) { o.DumpPath = os.DevNull }})
 		run.m = m
 		done <- err
 	}()
@@ -537,6 +538,9 @@ func runSys(raw json.RawMessage) (out interface{}, err error) {
 			run.suites.register(op.What, op.Port)
 		case "resolve":
 			st.Lookup = run.resolve(cancelled, op.Name)
+		case "dump":
+			// the public Dump renders the whole cache; an observation, nothing may change
+			run.m.Dump()
 		default:
 			return nil, fmt.Errorf("unknown op %s", op.Op)
 		}
